@@ -27,11 +27,12 @@ RULE = ("two peptides with one cysteine each (cysteine at N-terminal, internal o
         "force fields; debump/opt on and off. Non-trivial: |d - 2.5| <= 0.1 or swapped order or same chain or decoy; "
         "distinct = (side of the limit, distance class, chain scheme, order, cys positions, decoy, force field)"
         ' Round-2 additions: cysteines entered under the state names CYX / CYM; real disulfides in context (long stretches of the local proteins) under random rigid motions.'
-        ' Round-3/4 additions: bridged cysteines whose SG (or CB+SG) is missing from the input and is rebuilt by repair (judged on final coordinates under --nodebump).')
+        ' Round-3/4 additions: bridged cysteines whose SG (or CB+SG) is missing from the input and is rebuilt by repair (judged on final coordinates under --nodebump).'
+        ' Round-8 additions: both cysteines in one peptide - sequence neighbours (vicinal disulfide) and loops of two / three residues - with the distance set through the chi1 torsions.')
 ASSUMPTIONS = ["ground truth distances are recomputed from the 3-decimal coordinates in the file and cases within "
                "1e-6 of the limit are discarded"]
-MIN = {"quick": {"placements": 250, "bridged_pairs_checked": 90, "free_pairs_checked": 90, "near_limit": 100, "real_structures": 6, "rebuilt_structures": 3, "bridges_with_rebuilt_sulfur_checked": 6},
-       "thorough": {"placements": 4500, "bridged_pairs_checked": 1800, "free_pairs_checked": 1800, "near_limit": 2000, "real_structures": 500, "rebuilt_structures": 200, "bridges_with_rebuilt_sulfur_checked": 400}}
+MIN = {"quick": {"placements": 250, "bridged_pairs_checked": 90, "free_pairs_checked": 90, "near_limit": 100, "real_structures": 6, "rebuilt_structures": 3, "bridges_with_rebuilt_sulfur_checked": 6, "intra_chain_placements": 20, "vicinal_bridges": 3},
+       "thorough": {"placements": 4500, "bridged_pairs_checked": 1800, "free_pairs_checked": 1800, "near_limit": 2000, "real_structures": 500, "rebuilt_structures": 200, "bridges_with_rebuilt_sulfur_checked": 400, "intra_chain_placements": 1500, "vicinal_bridges": 300}}
 LIMIT = 2.5
 
 
@@ -47,6 +48,9 @@ def cases(tier, seed):
     nb = 14 if tier == "quick" else 1200
     out += [{"kind": "rebuilt", "seed": seed * 8893 + i, "src": ["1AJJ", "1K1I", "1BX8", "1AJJ", "1US0", "1QBS", "1AJJ"][i % 7]}
             for i in range(nb)]
+    # both cysteines in one peptide: sequence neighbours (vicinal disulfide) and short loops
+    ni = 40 if tier == "quick" else 3000
+    out += [{"kind": "intra", "seed": seed * 8899 + i, "gap": (1, 1, 2, 3)[i % 4]} for i in range(ni)]
     return out
 
 
@@ -285,8 +289,122 @@ def judge(res, r, ff, P, CA, dist, partners, wit, names):
     return bykey
 
 
+def _rotate_chi1(residue, angle):
+    """Rotate SG (and HG) of a cysteine about its CA->CB axis by `angle` degrees, in place."""
+    from ..ref.rigid import rodrigues
+    at = dict(residue["atoms"])
+    R = rodrigues(at["CB"] - at["CA"], angle)
+    residue["atoms"] = [(n, at["CB"] + R @ (x - at["CB"])) if n in ("SG", "HG") else (n, x) for n, x in residue["atoms"]]
+
+
+def run_intra(spec, res):
+    """Both cysteines in ONE peptide (sequence neighbours - a vicinal disulfide - or two / three residues apart): the
+    SG-SG distance is set by rotating the two chi1 torsions, so every bond length and angle stays as built."""
+    rng = random.Random(spec["seed"])
+    c = rng.random()
+    if c < 0.45:
+        d, dcls = LIMIT + rng.choice([-1, 1]) * rng.choice([0.003, 0.01, 0.02, 0.05, 0.1]), "near"
+    elif c < 0.8:
+        d, dcls = rng.uniform(1.95, 2.45), "inside"
+    else:
+        d, dcls = rng.uniform(2.55, 3.2), "outside"
+    gap = spec["gap"]
+    pool = ["ALA", "GLY", "SER", "LEU", "VAL", "THR", "LYS", "ASN"]
+    hyd = rng.choice(["none", "none", "all"])
+    found = None
+    for _try in range(60):
+        n = rng.randint(gap + 1, gap + 4)
+        i = rng.randint(0, n - gap - 1)
+        seq = [rng.choice(pool) for _ in range(n)]
+        seq[i] = seq[i + gap] = "CYS"
+        # backbone torsions drawn from the broad allowed regions (the stock extended conformations keep neighbouring
+        # side chains on opposite sides, so their sulfurs cannot meet)
+        pp = [(rng.uniform(-160, -50), rng.choice([rng.uniform(-70, -20), rng.uniform(100, 180), rng.uniform(-20, 100)]))
+              if rng.random() < 0.85 else (rng.uniform(45, 75), rng.uniform(20, 60)) for _ in seq]
+        pep = S.peptide(seq, rng, hydrogens=hyd, phipsi=pp)
+        heavy_all = [(k, nme, x) for k, r in enumerate(pep) for nme, x in r["atoms"] if not nme.startswith("H")]
+        if any(abs(k1 - k2) > 1 and float(np.linalg.norm(x1 - x2)) < 2.6 for k1, n1, x1 in heavy_all for k2, n2, x2 in heavy_all
+               if k1 < k2 and "SG" not in (n1, n2)):
+            continue
+        # coarse scan of the two chi1 rotations, then bisection on the second one
+        best = None
+        for a in range(0, 360, 15):
+            pa = [dict(r, atoms=list(r["atoms"])) for r in pep]
+            _rotate_chi1(pa[i], a)
+            prev = None
+            for b in range(0, 361, 15):
+                pb = dict(pa[i + gap], atoms=list(pa[i + gap]["atoms"]))
+                _rotate_chi1(pb, b)
+                dd = float(np.linalg.norm(sg_of(pa[i]) - sg_of(pb)))
+                if prev is not None and (prev[1] - d) * (dd - d) <= 0:
+                    best = (a, prev[0], b)
+                    break
+                prev = (b, dd)
+            if best:
+                break
+        if not best:
+            continue
+        a, lo, hi = best
+        _rotate_chi1(pep[i], a)
+
+        def dist_at(b):
+            pb = dict(pep[i + gap], atoms=list(pep[i + gap]["atoms"]))
+            _rotate_chi1(pb, b)
+            return float(np.linalg.norm(sg_of(pep[i]) - sg_of(pb)))
+        flo = dist_at(lo) - d
+        for _ in range(40):
+            mid = (lo + hi) / 2
+            fm = dist_at(mid) - d
+            if (flo <= 0) == (fm <= 0):
+                lo, flo = mid, fm
+            else:
+                hi = mid
+        _rotate_chi1(pep[i + gap], (lo + hi) / 2)
+        # the sulfurs must not sit on top of other heavy atoms of the peptide (a physically absurd input)
+        others = [x for k, r in enumerate(pep) for nme, x in r["atoms"] if not nme.startswith("H")
+                  and not (k in (i, i + gap) and nme in ("SG", "CB", "CA"))]
+        if min(float(np.linalg.norm(x - sg_of(pep[k]))) for x in others for k in (i, i + gap)) < 2.0:
+            continue
+        found = (pep, seq, i)
+        break
+    if found is None:
+        res.count("intra_chain_no_geometry_found")
+        return
+    pep, seq, i = found
+    items, truth = S.assemble([{"id": rng.choice(["A", "", "B"]), "start": rng.choice([1, 7, 98]), "residues": pep}])
+    text = pdbfmt.to_text(items)
+    P, CA, dist, partners, names = file_truth(text)
+    if any(abs(v - LIMIT) < 1e-6 for v in dist.values()) or any(c_ is None for c_ in CA):
+        return
+    ff = common.FFS[spec["seed"] % 6]
+    opts = [f"--ff={ff}"] + rng.choice([[], [], ["--noopt"], ["--nodebump"], ["--nodebump", "--noopt"]])
+    r = pipeline.run(text, opts, workname="c13")
+    res.count("placements")
+    res.count("intra_chain_placements")
+    wit = {"d_requested": d, "distances": {f"{a_}-{b_}": round(v, 4) for (a_, b_), v in dist.items()}, "scheme": f"intra+{gap}",
+           "sequence": seq, "opts": opts, "seed": spec["seed"]}
+    if not r.ok:
+        res.count("runs_failed")
+        res.note(f"failed: {type(r.exc).__name__} {str(r.exc)[:80]} {wit}")
+        return
+    main = dist[(1, 0)]
+    if dcls == "near":
+        res.count("near_limit")
+    if main < LIMIT:
+        res.count("intra_chain_bridges" if gap > 1 else "vicinal_bridges")
+    res.cell("inside" if main < LIMIT else "outside", dcls, f"intra+{gap}")
+    res.nt("inside" if main < LIMIT else "outside", round(abs(main - LIMIT), 3) if dcls == "near" else dcls, f"intra+{gap}", ff)
+    bykey = judge(res, r, ff, P, CA, dist, partners, dict(wit, input_names=names), names)
+    if bykey is not None:
+        res.sample = {"kind": "intra", "gap": gap, "d": round(main, 4), "opts": opts,
+                      "states": [(str(rr), rr.has_atom("HG")) for _, rr in sorted(bykey.items())]}
+
+
 def run_case(spec):
     res = Res()
+    if spec.get("kind") == "intra":
+        run_intra(spec, res)
+        return res
     if spec.get("kind") == "real":
         run_real(spec, res)
         return res
